@@ -883,3 +883,221 @@ Proof.
     + rewrite zd_get0_del_other by exact Hne. rewrite E1. symmetry. apply fred_def_ext, zget_del_other, Hne.
     + rewrite zd_get0_del_other by exact Hne. rewrite E2. symmetry. apply wred_def_ext, zget_del_other, Hne.
 Qed.
+
+(* ================================================================== *)
+(* Part 3: the tree's own figures (Model/Net.v) after removing one more index
+   are the row_remove image of the figures before                         *)
+Definition Kf (x : ix) (kv : ix * nat) : bool := negb (Nat.eqb (fst kv) x).
+
+Lemma filterK_lset_same x v d : filter (Kf x) (lset x v d) = filter (Kf x) d.
+Proof.
+  induction d as [|[k w] d IH]; cbn.
+  - unfold Kf. cbn. rewrite Nat.eqb_refl. reflexivity.
+  - destruct (Nat.eqb_spec k x) as [->|H]; cbn.
+    + unfold Kf. cbn. rewrite Nat.eqb_refl. reflexivity.
+    + rewrite IH. reflexivity.
+Qed.
+
+Lemma filterK_lset_other x j v d : j <> x -> filter (Kf x) (lset j v d) = lset j v (filter (Kf x) d).
+Proof.
+  intros Hne. induction d as [|[k w] d IH].
+  - cbn. unfold Kf. cbn. destruct (Nat.eqb_spec j x); [contradiction|reflexivity].
+  - cbn [lset filter]. destruct (Nat.eqb_spec k j) as [->|H].
+    + cbn [filter]. unfold Kf. cbn [fst]. destruct (Nat.eqb_spec j x); [contradiction|]. cbn [negb lset].
+      rewrite Nat.eqb_refl. reflexivity.
+    + cbn [filter]. unfold Kf. cbn [fst]. fold (Kf x). destruct (Nat.eqb_spec k x); cbn [negb]; [exact IH|].
+      cbn [lset]. destruct (Nat.eqb_spec k j); [contradiction|]. rewrite IH. reflexivity.
+Qed.
+
+Lemma lget0_filterK x j d : j <> x -> lget0 j (filter (Kf x) d) = lget0 j d.
+Proof.
+  intros Hne. unfold lget0. induction d as [|[k w] d IH]; cbn; [reflexivity|].
+  assert (EK : Kf x (k, w) = negb (Nat.eqb k x)) by reflexivity. rewrite EK.
+  destruct (Nat.eqb_spec k x) as [->|H]; cbn.
+  - destruct (Nat.eqb_spec x j); [congruence|exact IH].
+  - destruct (Nat.eqb_spec k j); [reflexivity|exact IH].
+Qed.
+
+Lemma filterK_ladd x j c d :
+  filter (Kf x) (ladd j c d) = if Nat.eqb j x then filter (Kf x) d else ladd j c (filter (Kf x) d).
+Proof.
+  unfold ladd. destruct (Nat.eqb_spec j x) as [->|Hne].
+  - apply filterK_lset_same.
+  - rewrite filterK_lset_other by exact Hne. rewrite lget0_filterK by exact Hne. reflexivity.
+Qed.
+
+Lemma legs_of_term_filter x T :
+  legs_of_term (filter (fun j => negb (Nat.eqb j x)) T) = filter (Kf x) (legs_of_term T).
+Proof.
+  unfold legs_of_term.
+  assert (G : forall d, fold_left (fun d j => ladd j 1 d) (filter (fun j => negb (Nat.eqb j x)) T) (filter (Kf x) d)
+                        = filter (Kf x) (fold_left (fun d j => ladd j 1 d) T d)).
+  { induction T as [|a T IH]; intros d; cbn [filter fold_left]; [reflexivity|].
+    destruct (Nat.eqb_spec a x) as [->|Hne]; cbn [negb fold_left].
+    - rewrite <- IH. rewrite filterK_ladd, Nat.eqb_refl. reflexivity.
+    - rewrite <- IH. rewrite filterK_ladd. destruct (Nat.eqb_spec a x); [contradiction|reflexivity]. }
+  apply (G []).
+Qed.
+
+Lemma legs_union2_filter x a b :
+  legs_union2 (filter (Kf x) a) (filter (Kf x) b) = filter (Kf x) (legs_union2 a b).
+Proof.
+  unfold legs_union2. revert a. induction b as [|[k w] b IH]; intros a; cbn [filter fold_left]; [reflexivity|].
+  assert (EK : Kf x (k, w) = negb (Nat.eqb k x)) by reflexivity. rewrite EK.
+  destruct (Nat.eqb_spec k x) as [->|Hne]; cbn [negb fold_left fst snd].
+  - rewrite <- IH. rewrite filterK_ladd, Nat.eqb_refl. reflexivity.
+  - rewrite <- IH. rewrite filterK_ladd. destruct (Nat.eqb_spec k x); [contradiction|reflexivity].
+Qed.
+
+Lemma filter_comm {A} (f g : A -> bool) l : filter f (filter g l) = filter g (filter f l).
+Proof. rewrite !filter_filter_comm_and. apply filter_ext. intros a. apply andb_comm. Qed.
+
+Lemma lkeys_filterK x d : lkeys (filter (Kf x) d) = filter (fun j => negb (Nat.eqb j x)) (lkeys d).
+Proof.
+  unfold lkeys. induction d as [|[k w] d IH]; cbn; [reflexivity|].
+  assert (EK : Kf x (k, w) = negb (Nat.eqb k x)) by reflexivity. rewrite EK.
+  destruct (negb (Nat.eqb k x)); cbn; rewrite IH; reflexivity.
+Qed.
+
+Lemma filter_all_id {A} (f : A -> bool) l : (forall a, In a l -> f a = true) -> filter f l = l.
+Proof.
+  induction l as [|a l IH]; cbn; intros H; [reflexivity|].
+  rewrite (H a (or_introl eq_refl)). f_equal. apply IH. intros b Hb. apply H. right; exact Hb.
+Qed.
+
+Section OneMore.
+Variable n : net.
+Variable sl : list slinfo.
+Variable x : ix.
+Variable p : option nat.
+Let sl' := sl ++ [mkSl x p].
+
+Lemma memb_removed_snoc j : memb j (removed sl') = memb j (removed sl) || Nat.eqb j x.
+Proof.
+  unfold sl'. rewrite removed_snoc. unfold memb. rewrite existsb_app. cbn. rewrite orb_false_r. reflexivity.
+Qed.
+
+Lemma term_sl_snoc i : term_sl n sl' i = filter (fun j => negb (Nat.eqb j x)) (term_sl n sl i).
+Proof.
+  unfold term_sl. rewrite filter_filter_comm_and. apply filter_ext. intros j.
+  rewrite memb_removed_snoc. destruct (memb j (removed sl)), (Nat.eqb j x); reflexivity.
+Qed.
+
+Lemma leaf_legs_filter_form sl0 k :
+  leaf_legs n sl0 k = filter (fun kv => negb (Nat.eqb (snd kv) (appear n (fst kv)))) (legs_of_term (term_sl n sl0 k)).
+Proof.
+  unfold leaf_legs. destruct (leaf_simplifiable n sl0 k) eqn:E; [reflexivity|].
+  unfold leaf_simplifiable in E. apply orb_false_iff in E. destruct E as [_ E].
+  symmetry. apply filter_all_id. intros kv Hkv.
+  destruct (Nat.eqb (snd kv) (appear n (fst kv))) eqn:E2; [|reflexivity].
+  exfalso. assert (existsb (fun kv => Nat.eqb (snd kv) (appear n (fst kv))) (legs_of_term (term_sl n sl0 k)) = true); [|congruence].
+  apply existsb_exists. exists kv. split; assumption.
+Qed.
+
+Lemma leaf_legs_snoc k : leaf_legs n sl' k = filter (Kf x) (leaf_legs n sl k).
+Proof.
+  rewrite !leaf_legs_filter_form, term_sl_snoc, legs_of_term_filter. apply filter_comm.
+Qed.
+
+Lemma sub_legs_snoc t : sub_legs n sl' t = filter (Kf x) (sub_legs n sl t).
+Proof.
+  induction t as [k|l IHl r IHr]; cbn [sub_legs]; [apply leaf_legs_snoc|].
+  rewrite IHl, IHr, legs_union2_filter. apply filter_comm.
+Qed.
+
+Lemma involved_snoc t : involved n sl' t = filter (Kf x) (involved n sl t).
+Proof.
+  destruct t as [k|l r]; cbn [involved]; [reflexivity|].
+  rewrite !sub_legs_snoc. apply legs_union2_filter.
+Qed.
+
+Lemma root_legs_snoc : root_legs n sl' = filter (Kf x) (root_legs n sl).
+Proof.
+  unfold root_legs.
+  assert (G : forall L, map (fun j => (j, 0%nat)) (filter (fun j => negb (memb j (removed sl'))) L)
+                        = filter (Kf x) (map (fun j => (j, 0%nat)) (filter (fun j => negb (memb j (removed sl))) L))).
+  { induction L as [|a L IH]; cbn [filter map]; [reflexivity|].
+    rewrite memb_removed_snoc.
+    destruct (memb a (removed sl)) eqn:E1; cbn [orb negb filter map]; [exact IH|].
+    assert (EK : Kf x (a, 0%nat) = negb (Nat.eqb a x)) by reflexivity. rewrite EK.
+    destruct (Nat.eqb a x); cbn [negb filter map]; rewrite IH; reflexivity. }
+  apply G.
+Qed.
+
+Lemma node_legs_snoc b t : node_legs n sl' b t = filter (Kf x) (node_legs n sl b t).
+Proof.
+  destruct t as [k|l r]; cbn [node_legs]; [apply (sub_legs_snoc (Leaf k))|].
+  destruct b; [apply root_legs_snoc|apply (sub_legs_snoc (Node l r))].
+Qed.
+
+Lemma wfl_sub_legs sl0 t : wfl (sub_legs n sl0 t).
+Proof.
+  induction t as [k|l IHl r IHr]; cbn [sub_legs]; [apply wfl_leaf_legs|].
+  apply wfl_filter, wfl_legs_union2; [exact IHl|apply IHr].
+Qed.
+
+Lemma involved_nodup sl0 t : NoDup (lkeys (involved n sl0 t)).
+Proof.
+  destruct t as [k|l r]; cbn [involved]; [constructor|].
+  apply legs_union2_nodup, wfl_sub_legs.
+Qed.
+
+Lemma node_legs_nodup sl0 b t : NoDup (output n) -> NoDup (lkeys (node_legs n sl0 b t)).
+Proof.
+  intros ND. destruct t as [k|l r]; cbn [node_legs]; [apply (wfl_sub_legs sl0 (Leaf k))|].
+  destruct b; [|apply (wfl_sub_legs sl0 (Node l r))].
+  unfold root_legs, lkeys. rewrite map_map. cbn [fst]. rewrite map_id. apply NoDup_filter, ND.
+Qed.
+
+(* a row of the tree's table is always a product table; the only thing that depends
+   on the network is that the legs are involved (root: the declared output)        *)
+Definition legs_involved (sl0 : list slinfo) (bt : bool * tree) : Prop :=
+  incl (lkeys (node_legs n sl0 (fst bt) (snd bt))) (lkeys (involved n sl0 (snd bt))).
+
+Lemma row_of_ok sl0 bt : NoDup (output n) -> (exists l r, snd bt = Node l r) -> legs_involved sl0 bt ->
+  row_ok (szd n) (row_of n sl0 bt).
+Proof.
+  intros ND (l & r & Ht) Hli. unfold row_of, row_ok. cbn [r_inv r_legs r_size r_flops fst snd].
+  split; [apply involved_nodup|]. split; [apply node_legs_nodup, ND|]. split; [exact Hli|].
+  split; [|reflexivity]. unfold node_flops. rewrite Ht. reflexivity.
+Qed.
+
+Lemma legs_involved_snoc bt : legs_involved sl bt -> legs_involved sl' bt.
+Proof.
+  unfold legs_involved. rewrite node_legs_snoc, involved_snoc, !lkeys_filterK.
+  intros H j Hj. apply filter_neq_in in Hj. apply filter_neq_in. split; [apply H; tauto|tauto].
+Qed.
+
+Lemma row_of_snoc bt : NoDup (output n) -> (exists l r, snd bt = Node l r) -> legs_involved sl bt ->
+  0 < zget x (szd n) ->
+  row_of n sl' bt = row_remove x (zget x (szd n)) (row_of n sl bt).
+Proof.
+  intros ND Hnode Hli Hd.
+  destruct (row_of_ok sl bt ND Hnode Hli) as (N1 & N2 & Hincl & Hf & Hs).
+  destruct Hnode as (l & r & Ht).
+  unfold row_remove.
+  destruct (memb x (r_inv (row_of n sl bt))) eqn:Ei.
+  - apply memb_In in Ei.
+    assert (E1 : lkeys (involved n sl' (snd bt)) = filter (fun j => negb (Nat.eqb j x)) (r_inv (row_of n sl bt)))
+      by (rewrite involved_snoc, lkeys_filterK; reflexivity).
+    assert (E2 : lkeys (node_legs n sl' (fst bt) (snd bt)) = filter (fun j => negb (Nat.eqb j x)) (r_legs (row_of n sl bt)))
+      by (rewrite node_legs_snoc, lkeys_filterK; reflexivity).
+    assert (Efl : node_flops n sl' (snd bt) = r_flops (row_of n sl bt) / zget x (szd n)).
+    { rewrite Hf. rewrite (size_of_div x (szd n) _ N1 Ei Hd). unfold node_flops. rewrite Ht, <- Ht, E1. reflexivity. }
+    unfold row_of at 1. rewrite E1, Efl. f_equal.
+    destruct (memb x (r_legs (row_of n sl bt))) eqn:El.
+    + apply memb_In in El. rewrite E2. f_equal. f_equal.
+      rewrite Hs. rewrite (size_of_div x (szd n) _ N2 El Hd). unfold node_size. rewrite E2. reflexivity.
+    + apply memb_false in El. rewrite E2, (filter_neq_id x _ El). f_equal. f_equal.
+      unfold node_size. rewrite E2, (filter_neq_id x _ El). reflexivity.
+  - apply memb_false in Ei.
+    assert (El : ~ In x (r_legs (row_of n sl bt))) by (intros H; apply Ei, Hincl, H).
+    unfold row_of at 1. unfold node_size, node_flops. rewrite Ht, <- Ht.
+    rewrite involved_snoc, node_legs_snoc, !lkeys_filterK.
+    change (lkeys (involved n sl (snd bt))) with (r_inv (row_of n sl bt)).
+    change (lkeys (node_legs n sl (fst bt) (snd bt))) with (r_legs (row_of n sl bt)).
+    rewrite (filter_neq_id x _ Ei), (filter_neq_id x _ El).
+    unfold row_of, node_size, node_flops. rewrite Ht. reflexivity.
+Qed.
+
+End OneMore.
